@@ -93,7 +93,7 @@ type mGroup struct {
 
 type roomStats struct {
 	joinsOK, joinsRefused, refusedAfterHeld, modApplied, kicks, leaves, chatsDirected, chatsBroadcast, spoofs,
-	histJoins, histJoinsOver50, permChanges, tokenOps, refusedNonMember, disconnects, crossGroupTokenOps, listInSubgroup, listAnswered, listHier, deadWriters int
+	histJoins, histJoinsOver50, permChanges, tokenOps, refusedNonMember, disconnects, crossGroupTokenOps, listInSubgroup, listAnswered, listHier, deadWriters, joinsWithData, serverIds int
 	refusedReasons map[string]int
 	ops            []string
 }
@@ -554,6 +554,16 @@ func (r *room) doJoin(sc *simClient) {
 			reason = "full"
 		}
 	}
+	// the protocol lets a client bring its data along in the join message itself
+	var joinData map[string]any
+	if rapid.IntRange(0, 2).Draw(t, "joinsWithData") == 0 {
+		joinData = map[string]any{"mood": fmt.Sprintf("m%d", r.st.joinsOK+r.st.joinsRefused)}
+		if rapid.Bool().Draw(t, "twoKeys") {
+			joinData["raisehand"] = true
+		}
+		joinMsg.Data = joinData
+		r.st.joinsWithData++
+	}
 	r.takeAll()
 	sc.gotJoined = nil
 	err := r.s.send(sc, joinMsg)
@@ -561,7 +571,14 @@ func (r *room) doJoin(sc *simClient) {
 		t.Fatalf("join closed the connection: %v", err)
 	}
 	if reason == "" {
-		g.members[sc.id] = &mMember{user: uname, perms: perms, data: nil, byToken: tok != nil}
+		var md map[string]any
+		if joinData != nil {
+			md = map[string]any{}
+			for k, v := range joinData {
+				md[k] = v
+			}
+		}
+		g.members[sc.id] = &mMember{user: uname, perms: perms, data: md, byToken: tok != nil}
 		r.where[sc.id] = gname
 		if has(perms, "op") && r.cfg.autolock {
 			// an operator's arrival does not unlock by itself
@@ -830,6 +847,27 @@ func (r *room) doChat(sc *simClient) {
 			}
 			t.Fatalf("%s: %s from %s (member=%v perms=%v, needs %q) dest=%q noecho=%v: %s received %d copies, want %d (a member with a dead writer present: %v)",
 				fam, typ, sc.id, me != nil, permsOf(me), need, dest, m.NoEcho, o.id, n, want, dead != nil)
+		}
+	}
+	if allowed && typ == "chat" && dest == "" && m.Id == "" {
+		// a broadcast chat without an id is given one by the server: every recipient sees the same, non-empty id, and it is
+		// the id under which the message sits in the history (it is what an operator will name to remove it)
+		var ids []string
+		for _, o := range r.s.cs {
+			for _, x := range got[o.id] {
+				if x.Type == "chat" && x.Value == val && x.Kind != "error" {
+					ids = append(ids, x.Id)
+				}
+			}
+		}
+		for _, id := range ids {
+			if id == "" || id != ids[0] {
+				t.Fatalf("C15: a broadcast chat sent without an id reached its recipients under the ids %q", ids)
+			}
+		}
+		if len(ids) > 0 && len(g.hist) > 0 && g.hist[len(g.hist)-1].value == val {
+			g.hist[len(g.hist)-1].id = ids[0]
+			r.st.serverIds++
 		}
 	}
 	if dead != nil {
@@ -1179,6 +1217,9 @@ func (r *room) checkReplay(sc *simClient, msgs []clientMessage) {
 	for i := range hs {
 		if hs[i].Value != mh[i].value || hs[i].Source != mh[i].source {
 			r.t.Fatalf("C15: history replay entry %d is %v from %q, want %v from %q", i, hs[i].Value, hs[i].Source, mh[i].value, mh[i].source)
+		}
+		if mh[i].id != "" && hs[i].Id != mh[i].id {
+			r.t.Fatalf("C15: history replay entry %d (%v) carries the id %q, the message was distributed under the id %q: nobody can name it to remove it", i, hs[i].Value, hs[i].Id, mh[i].id)
 		}
 	}
 }
@@ -1652,6 +1693,8 @@ func (r *room) classes(rec *verifkit.Rec) {
 		rec.Class("group_layout_parent_and_subgroup")
 	}
 	rec.ClassN("joins_with_a_token", r.tokenJoins)
+	rec.ClassN("joins_that_bring_data_along", r.st.joinsWithData)
+	rec.ClassN("chats_given_an_id_by_the_server", r.st.serverIds)
 	rec.ClassN("token_edits_across_groups", r.st.crossGroupTokenOps)
 	rec.ClassN("joins_with_history_replay", r.st.histJoins)
 	rec.ClassN("joins_with_full_history", r.st.histJoinsOver50)
